@@ -225,7 +225,7 @@ func init() {
 		ID:        "C19",
 		QuickSecs: 300, ThoroSecs: 1500,
 		Rule: "input-space exploration at byte level: tokens = all byte strings of length <= 3 over 13 bytes {- = a b . 1 space newline : / 0xC3 0xA9 0xFF} (2380) plus 73 special tokens (10^4-byte and deeply bundled tokens, int ranges with spans <= 10^4 including ranges ending at the int64 limits, numeric limits, format verbs, NUL); " +
-			"every single token x 18 configurations (plus 3 warn-mode configurations in which every Write on Writer fails), every pair over a subset of Np tokens, every triple over Nt tokens, the same strings as COMP_LINE (bash and zsh, both argument conventions) and as environment values of bound options; a family of definitions in which each of 15 texts (long, multibyte, combining, wide, format verbs, blanks, newline) takes each role (command name, option name, alias, argument name, description, synopsis argument, program name) x 3 modes, each with 17 command lines, 9 completion lines and Help() of every level; Parse, Dispatch and Help run under recover with a budget of 10^6 loop iterations per call (instrumented loops); " +
+			"every single token x 18 configurations (plus 3 warn-mode configurations in which every Write on Writer fails), every pair over a subset of Np tokens, every triple over Nt tokens, the same strings as COMP_LINE (bash and zsh, both argument conventions) and as environment values of bound options; a family of definitions in which each of 15 texts (long, multibyte, combining, wide, format verbs, blanks, newline) takes each role (command name, option name, alias, argument name, description, synopsis argument, program name) x 3 modes, each with 17 command lines, 9 completion lines and Help() of every level; the command-tree shapes of C10 (depth <= 2, wrappers, commands and root without a function, with and without the built-in help) on every command line of length <= 2 over 16 tokens; Parse, Dispatch and Help run under recover with a budget of 10^6 loop iterations per call (instrumented loops); " +
 			"oracle: no panic, budget never exhausted, a failed Parse returns nil remaining and a non-nil error, completion leaves through the exit path; distinct_nontrivial = distinct inputs executed",
 		Assume: []string{"tokens outside the byte alphabet and longer sequences are not covered", "a hang is detected as exhaustion of the loop-iteration budget, not by wall-clock"},
 		Run: func(c *RunCtx) {
@@ -323,6 +323,20 @@ func init() {
 			for d := 0; d < 3; d++ {
 				units = append(units, unit{"comp", d, 0}, unit{"env", d, 0})
 			}
+			// command-tree shapes (the family of C10: depth <= 2, wrappers, commands and root without a function), each
+			// without and with the built-in help, on every command line of length <= 2
+			var sdefs []*ph.Def
+			for _, d := range defsC10("quick") {
+				sdefs = append(sdefs, d)
+				d2 := *d
+				d2.Help = "help"
+				sdefs = append(sdefs, &d2)
+			}
+			shapeAlpha := []string{"c1", "c2", "s1", "s2", "--ra", "--rs", "--oo", "--ca", "--sa", "p", "--", "--sl", "zeta", "--zz", "help", "--help"}
+			res.Bounds["command_tree_shapes"] = len(sdefs)
+			for d := range sdefs {
+				units = append(units, unit{"shape", d, 0})
+			}
 			tdefs := defsC19Texts()
 			res.Bounds["definitions_with_text_roles"] = len(tdefs)
 			for d := range tdefs {
@@ -338,6 +352,17 @@ func init() {
 					break
 				}
 				un := units[u]
+				if un.kind == "shape" {
+					def := sdefs[un.def]
+					one("command_tree_shape_cases", def, nil, []string{})
+					for _, t1 := range shapeAlpha {
+						one("command_tree_shape_cases", def, nil, []string{t1})
+						for _, t2 := range shapeAlpha {
+							one("command_tree_shape_cases", def, nil, []string{t1, t2})
+						}
+					}
+					continue
+				}
 				if un.kind == "textdef" {
 					def := tdefs[un.def]
 					argvs, lines := c19DefCases(def)
@@ -414,7 +439,7 @@ func init() {
 			res.Distinct = res.Evaluations
 		},
 		Replay:     replayParser,
-		GateCounts: []string{"single_token_cases", "token_pair_cases", "token_triple_cases", "comp_line_texts", "environment_value_cases", "definition_text_cases"},
+		GateCounts: []string{"single_token_cases", "token_pair_cases", "token_triple_cases", "comp_line_texts", "environment_value_cases", "definition_text_cases", "command_tree_shape_cases"},
 	})
 }
 
